@@ -1,3 +1,4 @@
+from contextlib import suppress
 from enum import Enum
 from typing import (
     Any,
@@ -31,7 +32,7 @@ from apischema.objects.visitor import (
 )
 from apischema.types import AnyType
 from apischema.utils import Lazy
-from apischema.visitor import Result
+from apischema.visitor import Result, Unsupported
 
 RecursionKey = Tuple[AnyType, Optional[AnyConversion]]
 
@@ -76,7 +77,9 @@ class RecursiveChecker(ConversionsVisitor[Conv, Any], ObjectVisitor[Any]):
         pass
 
     def unsupported(self, tp: AnyType):
-        pass
+        # classes with fields registered by set_object_fields are handled there
+        with suppress(Unsupported):
+            super().unsupported(tp)
 
     def visit(self, tp: AnyType):
         rec_key = (tp, self._conversion)
